@@ -28,7 +28,7 @@ def run(ctx):
     ]
     ctx.regen()
     ctx.extra_lean_dirs = ["C09", "C01"]   # C13 imports C09's decoder model; TreeLevel.lean imports C01's LR machine (Skel.lean)
-    ctx.prove(["TsVerif.C13.Props", "TsVerif.C13.TreeLevel", "TsVerif.C13.Round11"], "TsVerif/C13/Audit.lean")
+    ctx.prove(["TsVerif.C13.Props", "TsVerif.C13.TreeLevel", "TsVerif.C13.Round11", "TsVerif.C13.Round11b"], "TsVerif/C13/Audit.lean")
     driver = ctx.build_driver("tsv-c13")
     explorer = ctx.cargo_bin("c13")
     cunit = ctx.cunit("cunit_c13")
